@@ -572,6 +572,7 @@ pub proof fn lemma_absent_fields(h: Header, v: Value, n: int, d: nat, l: Label)
     ensures l == Label::Int(2) ==> h.crit@.len() == 0, l == Label::Int(7) ==> h.counter_signatures@.len() == 0,
 {
     reveal(hdr_flat_ok);}
+#[verifier::rlimit(150)]
 pub proof fn lemma_hdr_inv_step(hp: Header, h: Header, v: Value, n: int, d: nat)
     requires
         0 <= n < map_of(v).len(),
@@ -934,7 +935,8 @@ impl AsCborValue for Header {«
         Self::from_cbor_value_nested(value, 0)
     }
 
-    fn to_cbor_value(self) -> Result<Value> { let mut self_ = self;«
+    «#[verifier::rlimit(150)]
+    »fn to_cbor_value(self) -> Result<Value> { let mut self_ = self;«
         let ghost h0 = self_;
         broadcast use axiom_question_mark_uses_from;
         broadcast use crate::util::axiom_iter_enc_ok_vec;
